@@ -191,14 +191,19 @@ class Note(object):
         >>> a
         'A-4'
         """
-        (old, o_octave) = (self.name, self.octave)
+        old = int(self)
         self.name = intervals.from_shorthand(self.name, interval, up)
-        if up:
-            if self < Note(old, o_octave):
-                self.octave += 1
-        else:
-            if self > Note(old, o_octave):
-                self.octave -= 1
+        # The pitch has to move by the size of the interval whatever the
+        # spelling of the new name (names with many accidentals can lie more
+        # than an octave away from their letter).
+        accidentals = interval[: len(interval) - len(interval.lstrip("#b"))]
+        semitones = (
+            [0, 2, 4, 5, 7, 9, 11][int(interval[-1]) - 1]
+            + accidentals.count("#")
+            - accidentals.count("b")
+        )
+        target = old + semitones if up else old - semitones
+        self.octave += (target - int(self)) // 12
 
     def from_int(self, integer):
         """Set the Note corresponding to the integer.
